@@ -3,6 +3,7 @@ CONSTANT Pairs = "name"
 CONSTANT Pool = "full"
 INVARIANT ValuesInDomain
 INVARIANT ProtectedEqualsDeclarative
+INVARIANT BothReadingsAllowed
 INVARIANT OrderOfAssignmentsIrrelevant
 INVARIANT NaiveDiffersOnlyWhenOvertaken
 INVARIANT RejectionOrderIrrelevant
